@@ -148,7 +148,7 @@ def check(ctx: Ctx, ev: Evidence) -> list[Finding]:
                 if x.kind == "env" and x.name.startswith("user."):
                     tid = x.args[0]
                     tidv = rec_field(tid, "transaction_id", tid)
-                    k = f"{which} handler | {x.name} in {x.func.split('.')[-1]} | transaction id {'None' if tidv is None else 'set'}"
+                    k = f"{which} handler | {x.name} | transaction id {'None' if tidv is None else 'set'}"
                     if k in seen:
                         continue
                     seen.add(k)
@@ -178,7 +178,7 @@ def check(ctx: Ctx, ev: Evidence) -> list[Finding]:
                 func = x.func.split(".")[-1]
                 after = e.ev[i + 1:]
                 if kind == "abandoned_cb":
-                    k = f"{which} handler | abandon on {cond} | callback issued in {func}"
+                    k = f"{which} handler | abandon on {cond}"
                     bad = []
                     if e.exc is not None and e.exc.origin not in ("env",) and not (e.exc.cls in h.protocol_exceptions and e.exc.origin == "explicit"):
                         bad.append(f"{e.exc.cls} after the abandonment: {e.exc.detail[:60]}")
@@ -203,11 +203,11 @@ def check(ctx: Ctx, ev: Evidence) -> list[Finding]:
                         # "cancelled WITH THAT condition code": the declared condition is what the completion will report
                         stored = [ename(y.args[0]) for y in e.ev[:i] if y.kind == "store" and y.name == "FinishedParams.condition_code"]
                         rec = stored[-1] if stored else "<not stored>"
-                        k = f"dest handler | cancel on {cond} in {func} | disposition {disp} | condition recorded for the completion: {rec if rec != cond else 'the declared one'}"
+                        k = f"dest handler | cancel on {cond} | disposition {disp} | condition recorded for the completion: {rec if rec != cond else 'the declared one'}"
                         ok = disp == "CANCELED" and rec == cond
                     else:
                         cc = ename(h.ew(x.watch, "_params.cond_code_eof"))
-                        k = f"source handler | cancel on {cond} in {func} | EOF condition {cc}"
+                        k = f"source handler | cancel on {cond} | EOF condition {cc}"
                         ok = cc in (cond, "None", "$OTHER") or state_of(a, e.post) == "IDLE"
                     if k in seen:
                         continue
@@ -216,7 +216,7 @@ def check(ctx: Ctx, ev: Evidence) -> list[Finding]:
                     if not ok:
                         out.append(Finding("C14-R3", k, f"notice of cancellation for {cond} does not record the declared condition", x.site, witness_of(a, e)))
                 elif kind == "ignore_cb":
-                    k = f"{which} handler | ignore on {cond} in {func}"
+                    k = f"{which} handler | ignore on {cond}"
                     if k in seen:
                         continue
                     seen.add(k)
